@@ -79,6 +79,20 @@ impl SimpleGseMemory {
     const MIN_MARGIN: usize = 2;
 }
 
+/// Verification hooks: read-only views of the free list and of the slots
+#[cfg(dvb_gse_rust_verif)]
+impl SimpleGseMemory {
+    pub fn verif_storages(&self) -> &[Box<[u8]>] {
+        &self.storages
+    }
+    pub fn verif_frags(&self) -> &[Option<MemoryContext>] {
+        &self.frags
+    }
+    pub fn verif_capacity(&self) -> usize {
+        self.storages.capacity()
+    }
+}
+
 impl GseDecapMemory for SimpleGseMemory {
     fn new(
         max_frag_id: usize,
